@@ -46,6 +46,9 @@ def dy(x, bits=40):
 
 
 # ------------------------------------------------------------------ generation
+STYLES = ["default", "intperm", "str", "mixed", "bool", "shared"]
+
+
 def rand_cards(rng, k):
     """child card + k parent cards, parents mostly pairwise different"""
     ccard = rng.choice([1, 2, 2, 3, 3, 4])
@@ -65,6 +68,22 @@ def rand_table(rng, ccard, P, mode):
             col = common.rand_column(rng, ccard)
         elif mode == "zerocol" and rng.random() < 0.3:
             col = [Fraction(0)] * ccard
+        elif mode == "mag":     # one power-of-two scale per column (denormals ... 2^990), no zeros, integer mantissas
+            e = rng.choice([-1070, -1000, -300, -60, -1, 0, 53, 60, 300, 990])
+            col = [Fraction(rng.randint(1, 12)) * (Fraction(2) ** e) for _ in range(ccard)]
+        elif mode == "near":    # columns that differ from each other by 2^-30 ... 2^-40 in one entry
+            base = [Fraction(i + 1, 8) for i in range(ccard)]
+            i = rng.randrange(ccard)
+            base[i] += rng.choice([-1, 1]) * Fraction(1, 2 ** rng.randint(30, 40)) * rng.randint(0, 3)
+            col = base
+        elif mode == "skew":    # normalised, one state almost certain: p = 2^-e, 1 - p
+            col = [Fraction(0)] * ccard
+            if ccard == 1:
+                col = [Fraction(1)]
+            else:
+                pq = Fraction(1, 2 ** rng.randint(18, 45))
+                i, i2 = rng.sample(range(ccard), 2)
+                col[i], col[i2] = pq, 1 - pq
         else:
             col = [Fraction(rng.choice([0, 1, 2, 3, 5, 7, 9, 12]), 2 ** rng.choice([0, 2, 3, 5])) for _ in range(ccard)]
         for i in range(ccard):
@@ -88,6 +107,10 @@ def rand_state_names(rng, nvars, cards, style):
         elif style == "str":
             s = ["s%d_%d" % (v, i) for i in range(c)]
             rng.shuffle(s)
+        elif style == "bool":     # booleans where the cardinality allows, else strings
+            s = rng.sample([False, True], c) if c <= 2 else ["b%d" % i for i in range(c)]
+        elif style == "shared":   # the same names for different variables
+            s = rng.sample(["a", "b", "c", "d"], c)
         else:  # mixed
             pool = [0, "a", 2, "b", 1, "t1", 5, "zz", 3, ""]
             rng.shuffle(pool)
@@ -107,11 +130,14 @@ def unfr(p):
 def gen_cpd(rng, kmax=4):
     k = rng.choice([0, 1, 2, 2, 3, 3, 4][: 3 + kmax])
     ccard, pc = rand_cards(rng, k)
+    mode = rng.choice(["norm", "free", "free", "zerocol", "mag", "near", "skew"])
+    if mode == "mag" and k > 2:
+        k = 2
+        pc = pc[:2]
     P = math.prod(pc)
-    mode = rng.choice(["norm", "free", "free", "zerocol"])
     rows = rand_table(rng, ccard, P, mode)
-    style = rng.choice(["default", "intperm", "str", "mixed"])
-    vstyle = rng.choice(["str", "str", "int", "mixed"])
+    style = rng.choice(STYLES)
+    vstyle = rng.choice(["str", "str", "int", "mixed", "tricky"])
     sn = rand_state_names(rng, k + 1, [ccard] + pc, style)
     return {"k": k, "ccard": ccard, "pc": pc, "rows": [[fr(x) for x in r] for r in rows], "mode": mode,
             "style": style, "vstyle": vstyle, "sn": sn, "nameseed": rng.randint(0, 10 ** 9),
@@ -153,7 +179,7 @@ def gen_bn(rng, nmax):
             indeg[v] = indeg.get(v, 0) + 1
     edges = e2
     cards = [rng.choice([1, 2, 2, 3, 3]) for _ in range(n)]
-    style = rng.choice(["default", "intperm", "str", "mixed"])
+    style = rng.choice(STYLES)
     sn = rand_state_names(rng, n, cards, style)
     fault = rng.choice(FAULTS)
     cpds = []
@@ -221,7 +247,7 @@ def gen_bn(rng, nmax):
     # tables
     for d in cpds:
         P = math.prod(d["pc"])
-        rows = rand_table(rng, d["card"], P, "norm")
+        rows = rand_table(rng, d["card"], P, rng.choice(["norm", "norm", "skew"]))
         d["rows"] = rows
     if fault in ("sum_out", "sum_in") and cpds:
         d = by_v[target]
@@ -238,7 +264,7 @@ def gen_bn(rng, nmax):
     for d in cpds:
         d["rows"] = [[fr(x) for x in r] for r in d["rows"]]
     return {"n": n, "nodes": nodes, "edges": edges, "cards": cards, "style": style, "sn": sn, "fault": applied,
-            "cpds": cpds, "vstyle": rng.choice(["str", "str", "int", "mixed"]), "nameseed": rng.randint(0, 10 ** 9),
+            "cpds": cpds, "vstyle": rng.choice(["str", "str", "int", "mixed", "tricky"]), "nameseed": rng.randint(0, 10 ** 9),
             "qseed": rng.randint(0, 10 ** 9)}
 
 
@@ -254,17 +280,68 @@ def gen_wide(rng):
     P = math.prod(pc)
     mode = rng.choice(["norm", "free"])
     rows = rand_table(rng, ccard, P, mode)
-    style = rng.choice(["default", "intperm", "str", "mixed"])
+    style = rng.choice(STYLES)
     sn = rand_state_names(rng, k + 1, [ccard] + pc, style)
     return {"k": k, "ccard": ccard, "pc": pc, "rows": [[fr(x) for x in r] for r in rows], "mode": mode,
-            "style": style, "vstyle": rng.choice(["str", "int", "mixed"]), "sn": sn,
+            "style": style, "vstyle": rng.choice(["str", "int", "mixed", "tricky"]), "sn": sn,
             "nameseed": rng.randint(0, 10 ** 9), "qseed": rng.randint(0, 10 ** 9)}
+
+
+def gen_widebn(rng):
+    """a child with 8..9 parents (roots), cardinalities mostly 2; correct or wrong in one respect on the wide family"""
+    k = rng.choice([8, 8, 9])
+    n = k + 1
+    cards = [rng.choice([2, 2, 2, 1, 3]) for _ in range(n)]
+    cards[0] = rng.choice([1, 2, 2])
+    while math.prod(cards) > 1600:
+        cards[rng.randrange(1, n)] = 2 if rng.random() < 0.7 else 1
+    nodes = list(range(n))
+    rng.shuffle(nodes)
+    edges = [[u, 0] for u in range(1, n)]
+    rng.shuffle(edges)
+    style = rng.choice(STYLES)
+    sn = rand_state_names(rng, n, cards, style)
+    pa = list(range(1, n))
+    rng.shuffle(pa)
+    cpds = [{"v": 0, "pa": pa, "pc": [cards[u] for u in pa], "card": cards[0], "sn_over": {}, "sn_keys": None}]
+    for u in range(1, n):
+        cpds.append({"v": u, "pa": [], "pc": [], "card": cards[u], "sn_over": {}, "sn_keys": None})
+    rng.shuffle(cpds)
+    c = [d for d in cpds if d["v"] == 0][0]
+    fault = rng.choice(["none", "none", "wrong_parents", "wrong_card", "sn_mismatch", "missing_cpd"])
+    applied = "none"
+    if fault == "wrong_parents":
+        i = rng.randrange(len(c["pa"]))
+        c["pa"].pop(i)
+        c["pc"].pop(i)
+        applied = "wrong_parents:drop"
+    elif fault == "wrong_card":
+        i = rng.randrange(len(c["pa"]))
+        u = c["pa"][i]
+        newc = rng.choice([x for x in [1, 2, 3] if x != c["pc"][i]])
+        c["pc"][i] = newc
+        if sn is not None:
+            c["sn_over"][str(u)] = (list(sn[u]) + ["x%d" % t for t in range(4)])[:newc]
+        applied = fault
+    elif fault == "sn_mismatch":
+        u = rng.choice(c["pa"])
+        c["sn_over"][str(u)] = ["m%d" % t for t in range(cards[u])]
+        applied = fault
+    elif fault == "missing_cpd":
+        t = rng.choice(range(1, n))
+        cpds = [d for d in cpds if d["v"] != t]
+        applied = fault
+    for d in cpds:
+        d["rows"] = [[fr(x) for x in r] for r in rand_table(rng, d["card"], math.prod(d["pc"]), "norm")]
+    return {"n": n, "nodes": nodes, "edges": edges, "cards": cards, "style": style, "sn": sn, "fault": applied,
+            "cpds": cpds, "vstyle": rng.choice(["str", "int", "mixed", "tricky"]), "nameseed": rng.randint(0, 10 ** 9),
+            "qseed": rng.randint(0, 10 ** 9)}
 
 
 def cases(tier, seed):
     rng = random.Random(seed)
     out = []
-    ncpd, nvalid, nbn, nmal = (260, 120, 420, 120) if tier == "quick" else (2600, 1000, 4200, 1000)
+    ncpd, nvalid, nbn, nmal = (170, 100, 320, 100) if tier == "quick" else (2400, 1000, 4000, 1000)
     for _ in range(ncpd):
         c = gen_cpd(rng)
         c["kind"] = "cpd"
@@ -281,7 +358,23 @@ def cases(tier, seed):
         c = gen_cpd(rng, kmax=3)
         c["kind"] = "malformed"
         out.append(c)
-    nwide, nalias = (36, 110) if tier == "quick" else (300, 900)
+    nwide, nalias = (26, 90) if tier == "quick" else (300, 900)
+    for _ in range(14 if tier == "quick" else 150):
+        c = gen_widebn(rng)
+        c["kind"] = "bn"
+        out.append(c)
+    nsess, nbns = (110, 110) if tier == "quick" else (1200, 1200)
+    for _ in range(nsess):
+        c = gen_cpd(rng, kmax=4)
+        c["kind"] = "session"
+        out.append(c)
+    for _ in range(nbns):
+        while True:
+            c = gen_bn(rng, 5)
+            if c["fault"] == "none":
+                break
+        c["kind"] = "bnsession"
+        out.append(c)
     for _ in range(nwide):
         c = gen_wide(rng)
         c["kind"] = "wide"
@@ -290,6 +383,9 @@ def cases(tier, seed):
         c = gen_cpd(rng, kmax=3)
         c["kind"] = "alias"
         out.append(c)
+    # backends: every stream runs under numpy and (every 4th case) under torch
+    for i, c in enumerate(out):
+        c["backend"] = "torch" if (i % 4 == 3 and c.get("mode") != "mag") else "numpy"
     return out
 
 
@@ -320,6 +416,10 @@ class Names:
 
 def var_names(case, n):
     rng = random.Random(case["nameseed"])
+    if case["vstyle"] == "tricky":   # substrings of each other, format keywords, falsy names, 0 vs "0"
+        pool = ["x1", "x10", "x", "x11", "G", "G2", "x1_0", "variable", "state", "values", "", 0, "0", "x_1", "phi", "None"]
+        rng.shuffle(pool)
+        return pool[:n]
     return common.node_names(rng, n, case["vstyle"])
 
 
@@ -351,6 +451,68 @@ def make_impl_arr(N, v, card, arr, ev, ec, sn_py):
     return TabularCPD(vn[v], card, arr, evidence=[vn[u] for u in ev], evidence_card=list(ec), **kw)
 
 
+
+# ------------------------------------------------------------------ numerics / backends
+def rel_ok(a, b, tol=1e-9):
+    """impl float a vs exact value b (Fraction or float): RELATIVE to the exact value; an exact zero must be
+    reproduced exactly (sums of non-negative floats)"""
+    try:
+        a = float(a)
+    except Exception:
+        return False
+    if not math.isfinite(a):
+        return False
+    if isinstance(b, float):
+        if not math.isfinite(b):
+            return False
+    fb = Fraction(b)
+    if fb == 0:
+        return a == 0.0
+    return abs(Fraction(a) - fb) <= Fraction(tol) * abs(fb)
+
+
+def to_np(x):
+    import numpy as np
+    if hasattr(x, "detach"):
+        return x.detach().cpu().numpy()
+    return np.asarray(x)
+
+
+def shares(a, b):
+    """do two arrays / tensors share memory"""
+    import numpy as np
+    ta, tb = hasattr(a, "detach"), hasattr(b, "detach")
+    if ta and tb:
+        if a.numel() == 0 or b.numel() == 0:
+            return False
+        return a.untyped_storage().data_ptr() == b.untyped_storage().data_ptr()
+    if ta or tb:
+        a = to_np(a)
+        b = to_np(b)
+    try:
+        return bool(np.shares_memory(np.asarray(a), np.asarray(b)))
+    except Exception:
+        return False
+
+
+def is_torch():
+    from pgmpy import config
+    return config.BACKEND != "numpy"
+
+
+def q32(x):
+    """the float32 value torch.Tensor(list) turns x into, as an exact rational"""
+    import numpy as np
+    return Fraction(float(np.float32(float(x))))
+
+
+def case_rows(case, rows_json):
+    rows = [[unfr(x) for x in r] for r in rows_json]
+    if case.get("backend") == "torch":
+        rows = [[q32(x) for x in r] for r in rows]
+    return rows
+
+
 # ------------------------------------------------------------------ canonical forms
 def impl_form(N, cpd):
     """observable content of a pgmpy CPD / factor: ordered variables, cardinalities, flat values,
@@ -358,7 +520,7 @@ def impl_form(N, cpd):
     import numpy as np
     vs = [N.var(x) for x in cpd.variables]
     cards = [int(c) for c in cpd.cardinality]
-    vals = np.asarray(cpd.values, dtype=float)
+    vals = np.asarray(to_np(cpd.values), dtype=float)
     if tuple(vals.shape) != tuple(cards):
         return None, "values shape %r != cardinality %r" % (vals.shape, cards)
     sn = {N.var(k): [N.st(s) for s in lst] for k, lst in cpd.state_names.items()}
@@ -395,7 +557,7 @@ def close(a, b):
     """impl float vs model Fraction-or-None (None = non-finite)"""
     if b is None:
         return not math.isfinite(a)
-    return common.approx(a, b)
+    return rel_ok(a, b)
 
 
 def cmp_forms(what, imp, mod, rows_impl=None):
@@ -406,7 +568,7 @@ def cmp_forms(what, imp, mod, rows_impl=None):
     if len(imp["flat"]) != len(mod["flat"]) or not all(close(a, b) for a, b in zip(imp["flat"], mod["flat"])):
         return bad("impl!=model:%s-values" % what, {"impl": imp["flat"], "model": [None if x is None else float(x) for x in mod["flat"]]})
     if rows_impl is not None:
-        r = [[float(x) for x in row] for row in rows_impl]
+        r = [[float(x) for x in row] for row in to_np(rows_impl)]
         m = mod["rows"]
         if len(r) != len(m) or any(len(a) != len(b) for a, b in zip(r, m)) or \
            not all(close(x, y) for a, b in zip(r, m) for x, y in zip(a, b)):
@@ -423,7 +585,7 @@ def tables_equal(t1, t2):
             if math.isfinite(a) != math.isfinite(b):
                 return False
             continue
-        if not common.approx(a, b):
+        if not rel_ok(a, b):
             return False
     return True
 
@@ -435,6 +597,20 @@ def call_impl(f):
     except (ValueError, KeyError, IndexError, TypeError) as e:
         return ("err", ERR[type(e).__name__ if type(e).__name__ in ERR else
                            [c.__name__ for c in type(e).__mro__ if c.__name__ in ERR][0]])
+    except RuntimeError:
+        if is_torch():   # torch kernels report shape / axis problems as RuntimeError (numpy: ValueError)
+            return ("err", 1)
+        raise
+
+
+def same_outcome(r, st, mr):
+    """implementation outcome r = ('ok', x) | ('err', code) vs the model's (st, mr); under torch an index that
+    is not an integer is a TypeError where numpy raises IndexError"""
+    if r[0] != st:
+        return False
+    if st == "err" and r[1] != mr:
+        return is_torch() and {r[1], mr} == {3, 4}
+    return True
 
 
 
@@ -506,7 +682,7 @@ def by_name_probe(N, obj, snap):
                     return "by-name reduce: wrong scope/state names"
                 for k2, v2 in exp.items():
                     g = rs["table"][k2]
-                    if math.isfinite(v2) and not common.approx(g, v2, 1e-8):
+                    if math.isfinite(v2) and not rel_ok(g, v2, 1e-8):
                         return "by-name reduce of %r=%r reads a wrong cell: got %r expected %r" % (var, sname, g, v2)
     if all(isinstance(x, str) and x.isidentifier() for x in vs):
         for idx in itertools.product(*[range(int(c)) for c in obj.cardinality]):
@@ -515,7 +691,7 @@ def by_name_probe(N, obj, snap):
                 g = float(obj.get_value(**kw))
             except Exception as e:
                 return "get_value by name raised %s" % type(e).__name__
-            ex = float(np.asarray(obj.values)[idx])
+            ex = float(to_np(obj.values)[idx])
             if (g != ex) and not (g != g and ex != ex):
                 return "get_value by name reads a wrong cell at %r" % (kw,)
     return None
@@ -533,7 +709,7 @@ def sharing(a, b):
             out.append(attr)
         elif attr in ("values", "cardinality"):
             try:
-                if np.shares_memory(np.asarray(x), np.asarray(y)):
+                if shares(x, y):
                     out.append(attr + "(memory)")
             except Exception:
                 pass
@@ -634,6 +810,83 @@ def run_independence(N, fresh, k, pc, esn, vn, rng, tags):
     return None
 
 
+
+# ------------------------------------------------------------------ exported table with labels, get_random
+def check_to_csv(N, cpd, k, ev, pc, ccard, esn, T0):
+    """to_csv: header row i = evidence variable i and, per column, its state in the row-major configuration of the
+    column; data row = child state label and the column entries"""
+    import csv
+    import os
+    vn = N.varnames
+    path = "/var/tmp/c05_csv_%d.csv" % os.getpid()
+    try:
+        cpd.to_csv(path)
+        with open(path, newline="") as fh:
+            got = list(csv.reader(fh))
+    finally:
+        if os.path.exists(path):
+            os.remove(path)
+    cfgs = list(itertools.product(*[range(c) for c in pc]))
+    if len(got) != k + ccard:
+        return "row count %d, expected %d" % (len(got), k + ccard)
+    for t, u in enumerate(ev):
+        exp = [str(vn[u])] + ["{var}({state})".format(var=vn[u], state=esn[u][cfg[t]]) for cfg in cfgs]
+        if got[t] != exp:
+            return "header row %d is %r, expected %r" % (t, got[t][:6], exp[:6])
+    for i in range(ccard):
+        row = got[k + i]
+        if row[0] != "{var}({state})".format(var=vn[0], state=esn[0][i]) or len(row) != 1 + len(cfgs):
+            return "data row %d label/length: %r" % (i, row[:3])
+        for j, cfg in enumerate(cfgs):
+            key = frozenset([(0, N.st(esn[0][i]))] + [(u, N.st(esn[u][cfg[t]])) for t, u in enumerate(ev)])
+            try:
+                val = float(row[1 + j])
+            except ValueError:
+                return "data cell %r is not a number" % (row[1 + j],)
+            if not rel_ok(val, T0[key], 1e-6):
+                return "data cell (%d,%d) = %r, expected %r" % (i, j, val, T0[key])
+    return None
+
+
+def check_get_random(N, drv, k, ev, pc, ccard, snd, seed):
+    from pgmpy.factors.discrete import TabularCPD
+    import numpy as np
+    vn = N.varnames
+    cardd = {vn[0]: ccard}
+    cardd.update({vn[u]: c for u, c in zip(ev, pc)})
+    snap = dict(cardd)
+    sn_py = {vn[u]: list(l) for u, l in snd.items()} if snd else {}
+    evl = [vn[u] for u in ev]
+    c1 = TabularCPD.get_random(vn[0], evidence=evl, cardinality=cardd, state_names=sn_py, seed=seed)
+    c2 = TabularCPD.get_random(vn[0], evidence=evl, cardinality=cardd, state_names=sn_py, seed=seed)
+    c3 = TabularCPD.get_random(vn[0], evidence=evl, cardinality=cardd, state_names=sn_py, seed=seed + 1)
+    if cardd != snap or evl != [vn[u] for u in ev]:
+        return "get_random changed its arguments"
+    v1, v2, v3 = (np.asarray(to_np(c.get_values()), dtype=float) for c in (c1, c2, c3))
+    if not np.array_equal(v1, v2):
+        return "get_random: same seed, different tables"
+    if ccard > 1 and np.array_equal(v1, v3):
+        return "get_random: different seeds, same table"
+    if (v1 < 0).any() or not bool(c1.is_valid_cpd()) or not np.allclose(v1.sum(axis=0), 1.0, atol=1e-6):
+        return "get_random: not a normalised non-negative table"
+    rows = [[Fraction(float(x)) for x in r] for r in v1]
+    m, mvalid = drv.call("c05_ctor", [ctor_args(N, 0, ccard, rows, ev, pc, snd)])
+    f, e = impl_form(N, c1)
+    if e:
+        return "get_random: " + e
+    b = cmp_forms("get_random", f, model_form(m), c1.get_values())
+    if b:
+        return "get_random: scope / cardinalities / state names / layout differ from the constructor's: %s" % b["kind"]
+    d = TabularCPD.get_random(vn[0], evidence=evl, cardinality=None)
+    if [int(x) for x in d.cardinality] != [2] * (k + 1) or not bool(d.is_valid_cpd()):
+        return "get_random(cardinality=None): cardinalities %r" % ([int(x) for x in d.cardinality],)
+    if k >= 1:
+        r = call_impl(lambda: TabularCPD.get_random(vn[0], evidence=evl, cardinality={vn[0]: ccard}))
+        if r != ("err", 1):
+            return "get_random accepts a cardinality dict without the parents"
+    return None
+
+
 # ------------------------------------------------------------------ CPD cases
 def sn_dict(case, k):
     if case["sn"] is None:
@@ -654,7 +907,7 @@ def run_cpd(case, drv):
     k = case["k"]
     N = Names(var_names(case, k + 1))
     vn = N.varnames
-    rows = [[unfr(x) for x in r] for r in case["rows"]]
+    rows = case_rows(case, case["rows"])
     pc = case["pc"]
     snd = sn_dict(case, k)
     ev = list(range(1, k + 1))
@@ -682,12 +935,22 @@ def run_cpd(case, drv):
     for j, cfg in enumerate(itertools.product(*[range(c) for c in pc])):
         for i in range(case["ccard"]):
             key = frozenset([(0, N.st(esn[0][i]))] + [(u, N.st(esn[u][cfg[t]])) for t, u in enumerate(ev)])
-            if not common.approx(T0[key], rows[i][j]):
+            if not rel_ok(T0[key], rows[i][j]):
                 return bad("impl!=spec:column-meaning", {"i": i, "j": j, "config": cfg, "impl": T0[key], "expected": float(rows[i][j])})
     iv = bool(cpd.is_valid_cpd())
     if iv != bool(mvalid):
         return bad("impl!=model:is_valid_cpd", {"impl": iv, "model": bool(mvalid), "rows": case["rows"]})
     tags.append("valid" if iv else "invalid")
+    r_ = check_to_csv(N, cpd, k, ev, pc, case["ccard"], esn, T0)
+    if r_:
+        return bad("impl!=spec:to_csv", {"reason": r_})
+    if case["qseed"] % 3 == 0:
+        r_ = check_get_random(N, drv, k, ev, pc, case["ccard"], snd, case["qseed"] % 1000)
+        if r_:
+            return bad("impl!=spec:get_random", {"reason": r_})
+        tags.append("get_random")
+    if [N.var(x) for x in cpd.get_evidence()] != list(reversed(ev)):
+        return bad("impl!=spec:get_evidence", {"impl": [N.var(x) for x in cpd.get_evidence()]})
 
     # --- reorder_parents: every permutation, both modes
     perms = list(itertools.permutations(ev))
@@ -696,7 +959,7 @@ def run_cpd(case, drv):
             c2 = fresh()
             r = call_impl(lambda: c2.reorder_parents([vn[u] for u in perm], inplace=inplace))
             st, mr = drv.call_e("c05_reorder", [args, list(perm), inplace])
-            if r[0] != st or (st == "err" and r[1] != mr):
+            if not same_outcome(r, st, mr):
                 return bad("impl!=model:reorder-outcome", {"perm": perm, "inplace": inplace, "impl": r[0:1] + ((r[1],) if r[0] == "err" else ()), "model": [st, mr if st == "err" else None]})
             if st == "err":
                 tags.append("reorder-err")
@@ -710,10 +973,10 @@ def run_cpd(case, drv):
             if b:
                 b["detail"]["perm"] = list(perm)
                 return b
-            ret = [[float(x) for x in row] for row in np.asarray(r[1])]
+            ret = [[float(x) for x in row] for row in to_np(r[1])]
             mret = [[common.frac(x) for x in row] for row in mrows]
             if len(ret) != len(mret) or any(len(a) != len(bb) for a, bb in zip(ret, mret)) or \
-               not all(common.approx(x, y) for a, bb in zip(ret, mret) for x, y in zip(a, bb)):
+               not all(rel_ok(x, y) for a, bb in zip(ret, mret) for x, y in zip(a, bb)):
                 return bad("impl!=model:reorder-returned-array", {"perm": perm, "inplace": inplace, "impl": ret, "model": [[float(x) for x in row] for row in mret]})
             # the property itself
             T2 = named_table(impc["vars"], impc["cards"], impc["flat"], impc["sn"])
@@ -740,7 +1003,7 @@ def run_cpd(case, drv):
                 c2 = fresh()
                 r = call_impl(lambda: c2.marginalize([vn[u] for u in X], inplace=inplace))
                 st, mr = drv.call_e("c05_marginalize", [args, X])
-                if r[0] != st or (st == "err" and r[1] != mr):
+                if not same_outcome(r, st, mr):
                     return bad("impl!=model:marginalize-outcome", {"X": X, "impl": r[0], "model": [st, mr if st == "err" else None]})
                 if st == "err":
                     continue
@@ -770,7 +1033,7 @@ def run_cpd(case, drv):
                     dens[pk] = dens.get(pk, 0.0) + v2
                 for kk, val in acc.items():
                     den = dens[frozenset(p for p in kk if p[0] != 0)]
-                    if den != 0 and not common.approx(T2[kk], val / den, 1e-8):
+                    if den != 0 and not rel_ok(T2[kk], val / den, 1e-8):
                         return bad("impl!=spec:marginalize-not-normalised-sum", {"X": X, "impl": T2[kk], "expected": val / den})
             # reduce by state name
             for rep in range(2):
@@ -781,7 +1044,7 @@ def run_cpd(case, drv):
                 c2 = fresh()
                 r = call_impl(lambda: c2.reduce(vals_py, inplace=inplace, show_warnings=False))
                 st, mr = drv.call_e("c05_reduce", [args, vals_m])
-                if r[0] != st or (st == "err" and r[1] != mr):
+                if not same_outcome(r, st, mr):
                     return bad("impl!=model:reduce-outcome", {"values": vals_m, "impl": r[0], "model": [st, mr if st == "err" else None]})
                 if st == "err":
                     continue
@@ -803,7 +1066,7 @@ def run_cpd(case, drv):
                     dens[pk] = dens.get(pk, 0.0) + v2
                 for kk, val in sl.items():
                     den = dens[frozenset(p for p in kk if p[0] != 0)]
-                    if den != 0 and not common.approx(T2[kk], val / den, 1e-8):
+                    if den != 0 and not rel_ok(T2[kk], val / den, 1e-8):
                         return bad("impl!=spec:reduce-not-normalised-slice", {"values": vals_m, "impl": T2[kk], "expected": val / den})
     tags.append("subsets=%d" % (2 ** k))
 
@@ -819,10 +1082,10 @@ def run_cpd(case, drv):
         b = cmp_forms("normalize", impc, model_form(mr, opt=True), obj.get_values())
         if b:
             return b
-        gv = np.asarray(obj.get_values(), dtype=float)
+        gv = np.asarray(to_np(obj.get_values()), dtype=float)
         for j in range(gv.shape[1]):
             s0 = sum(rows[i][j] for i in range(case["ccard"]))
-            if s0 != 0 and not common.approx(float(gv[:, j].sum()), 1.0):
+            if s0 != 0 and not rel_ok(float(gv[:, j].sum()), 1.0):
                 return bad("impl!=spec:normalize-column-sum", {"j": j, "sum": float(gv[:, j].sum())})
             if s0 == 0 and np.isfinite(gv[:, j]).any():
                 return bad("impl!=spec:normalize-zero-column-finite", {"j": j})
@@ -880,7 +1143,7 @@ def run_cpd(case, drv):
             q_m = [[v, N.st(esn[v][i])] for v, i in enumerate(idx)]
             got = float(cpd.get_value(**q_py))
             exp = common.frac(drv.call("c05_getvalue", [args, q_m]))
-            if not common.approx(got, exp):
+            if not rel_ok(got, exp):
                 return bad("impl!=model:get_value", {"query": q_m, "impl": got, "model": float(exp)})
     nontriv = (k >= 2 and len(set(pc)) > 1) or case["style"] != "default"
     return ok(nontrivial=nontriv, key=common.canon_key(["cpd", case["ccard"], pc, case["rows"], case["sn"], case["vstyle"]]), tags=tags)
@@ -889,7 +1152,7 @@ def run_cpd(case, drv):
 def run_valid(case, drv):
     k = case["k"]
     N = Names(var_names(case, k + 1))
-    rows = [[unfr(x) for x in r] for r in case["rows"]]
+    rows = case_rows(case, case["rows"])
     ev = list(range(1, k + 1))
     args = ctor_args(N, 0, case["ccard"], rows, ev, case["pc"], None)
     cpd = make_impl(N, 0, case["ccard"], rows, ev, case["pc"], None)
@@ -911,7 +1174,7 @@ def run_malformed(case, drv):
     k = case["k"]
     N = Names(var_names(case, k + 2))
     vn = N.varnames
-    rows = [[unfr(x) for x in r] for r in case["rows"]]
+    rows = case_rows(case, case["rows"])
     pc = case["pc"]
     snd = sn_dict(case, k)
     ev = list(range(1, k + 1))
@@ -925,7 +1188,7 @@ def run_malformed(case, drv):
         return make_impl(N, 0, case["ccard"], rows, ev, pc, snd)
 
     def same(r, st, mr, what, info):
-        if r[0] != st or (st == "err" and r[1] != mr):
+        if not same_outcome(r, st, mr):
             return bad("impl!=model:%s-outcome" % what, {"info": info, "impl": [r[0], r[1] if r[0] == "err" else None], "model": [st, mr if st == "err" else None]})
         tags.append("%s:%s" % (what, "ok" if st == "ok" else "err%d" % mr))
         return None
@@ -972,9 +1235,11 @@ def run_malformed(case, drv):
         u = ev[0]
         reds.append([(u, esn[u][0]), (u, esn[u][0])])
         reds.append([(u, "nosuchstate")])
-        reds.append([(u, 1)])           # a number: name first, else state number
-        reds.append([(u, 7)])
-        if k >= 2:
+        nb = lambda t: not any(isinstance(x, bool) for x in esn[t])   # 1 == True: numbers are not probed on bool names
+        if nb(u):
+            reds.append([(u, 1)])           # a number: name first, else state number
+            reds.append([(u, 7)])
+        if k >= 2 and nb(u) and nb(ev[1]):
             w = ev[1]
             reds.append([(u, esn[u][-1]), (w, 0)])
             reds.append([(u, 0), (w, pc[1] - 1)])
@@ -1060,7 +1325,7 @@ def run_bn(case, drv):
                     snd[u] = list(range(cards[u] if u == d["v"] else d["pc"][d["pa"].index(u)]))
             if d["sn_keys"] is not None:
                 snd = {u: snd[u] for u in d["sn_keys"]}
-        rows = [[unfr(x) for x in r] for r in d["rows"]]
+        rows = case_rows(case, d["rows"])
         margs.append(ctor_args(N, d["v"], d["card"], rows, d["pa"], d["pc"], snd))
         objs.append(make_impl(N, d["v"], d["card"], rows, d["pa"], d["pc"], snd))
     model.add_cpds(*objs)
@@ -1113,7 +1378,7 @@ def run_bn(case, drv):
         except KeyError:
             ir = (2, 2)
         if mres[0] == 0:
-            if ir[0] != 0 or not common.approx(ir[1], common.frac(mres[1])):
+            if ir[0] != 0 or not rel_ok(ir[1], common.frac(mres[1])):
                 return bad("impl!=model:get_state_probability", {"query": str(q), "impl": ir, "model": float(common.frac(mres[1]))})
         elif mres[0] == 1 or (mres[0] == 2 and mres[1] == 1):
             if ir[0] != 1:
@@ -1132,11 +1397,11 @@ def run_bn(case, drv):
             total += pr
         eps = float(TOL)
         lo, hi = (1 - eps) ** n, (1 + eps) ** n
-        if case["fault"] in ("none",) and not common.approx(total, 1.0):
+        if case["fault"] in ("none",) and case.get("backend") != "torch" and not rel_ok(total, 1.0):
             return bad("impl!=spec:joint-total", {"total": total})
         if not (lo - 1e-9 <= total <= hi + 1e-9):
             return bad("impl!=spec:joint-total-outside-tolerance", {"total": total, "bounds": [lo, hi]})
-        if gsp[0][0] != 0 or not common.approx(total, common.frac(gsp[0][1])):
+        if gsp[0][0] != 0 or not rel_ok(total, common.frac(gsp[0][1])):
             return bad("impl!=model:joint-total", {"impl": total, "model": gsp[0]})
         tags.append("joint-total-checked")
     return ok(nontrivial=len(case["edges"]) > 0,
@@ -1159,7 +1424,7 @@ def run_wide(case, drv):
     k = case["k"]
     N = Names(var_names(case, k + 1))
     vn = N.varnames
-    rows = [[unfr(x) for x in r] for r in case["rows"]]
+    rows = case_rows(case, case["rows"])
     pc = case["pc"]
     snd = sn_dict(case, k)
     ev = list(range(1, k + 1))
@@ -1181,6 +1446,43 @@ def run_wide(case, drv):
     if b:
         return b
     T0 = named_table(imp0["vars"], imp0["cards"], imp0["flat"], imp0["sn"])
+    mv = drv.call("c05_ctor", [args])[1]
+    if bool(cpd.is_valid_cpd()) != bool(mv):
+        return bad("impl!=model:is_valid_cpd(wide)", {"impl": bool(cpd.is_valid_cpd()), "model": bool(mv)})
+    perm = list(ev)
+    rng.shuffle(perm)
+    for inplace in (True, False):
+        c2 = fresh()
+        r = call_impl(lambda: c2.reorder_parents([vn[u] for u in perm], inplace=inplace))
+        st, mr = drv.call_e("c05_reorder", [args, perm, inplace])
+        if not same_outcome(r, st, mr):
+            return bad("impl!=model:reorder-outcome(wide)", {"perm": perm})
+        if st == "ok":
+            impc, e = impl_form(N, c2)
+            if e:
+                return bad("impl-inconsistent:reorder(wide)", e)
+            b = cmp_forms("reorder(wide,inplace=%s)" % inplace, impc, model_form(mr[0]), c2.get_values())
+            if b:
+                b["detail"]["perm"] = perm
+                return b
+            if not tables_equal(T0, named_table(impc["vars"], impc["cards"], impc["flat"], impc["sn"])):
+                return bad("impl!=spec:reorder-changes-P(wide)", {"perm": perm})
+            ret = [[float(x) for x in row] for row in to_np(r[1])]
+            mret = [[common.frac(x) for x in row] for row in mr[1]]
+            if len(ret) != len(mret) or not all(rel_ok(x, y) for a_, b_ in zip(ret, mret) for x, y in zip(a_, b_)):
+                return bad("impl!=model:reorder-returned-array(wide)", {"perm": perm, "inplace": inplace})
+    for label, derive, entry in (("copy", lambda c: c.copy(), "c05_copy"), ("normalize", lambda c: c.normalize(inplace=False), "c05_normalize")):
+        d_ = derive(fresh())
+        mr = drv.call(entry, [args])
+        f_, e = impl_form(N, d_)
+        if e:
+            return bad("impl-inconsistent:%s(wide)" % label, e)
+        b = cmp_forms(label + "(wide)", f_, model_form(mr, opt=(label == "normalize")), d_.get_values())
+        if b:
+            return b
+    f_, e = impl_form(N, fresh().to_factor())
+    if e or cmp_forms("to_factor(wide)", f_, {kk: mod0[kk] for kk in ("vars", "cards", "flat", "sn")}):
+        return bad("impl!=model:to_factor(wide)", {"reason": e})
     subsets = []
     for t in range(12):
         if t % 3 != 2:   # fix most low-index parents, keep (some of) the high-index ones
@@ -1199,7 +1501,7 @@ def run_wide(case, drv):
         c2 = fresh()
         r = call_impl(lambda: c2.reduce(vals_py, inplace=inplace, show_warnings=False))
         st, mr = drv.call_e("c05_reduce", [args, vals_m])
-        if r[0] != st or (st == "err" and r[1] != mr):
+        if not same_outcome(r, st, mr):
             return bad("impl!=model:reduce-outcome", {"values": vals_m, "impl": r[0], "model": [st, mr if st == "err" else None]})
         if st == "err":
             continue
@@ -1219,7 +1521,7 @@ def run_wide(case, drv):
         if T2 is None or set(T2) != set(exp):
             return bad("impl!=spec:reduce-scope(wide)", {"values": vals_m})
         for kk, val in exp.items():
-            if math.isfinite(val) and not common.approx(T2[kk], val, 1e-8):
+            if math.isfinite(val) and not rel_ok(T2[kk], val, 1e-8):
                 return bad("impl!=spec:reduce-not-normalised-slice(wide)", {"values": vals_m, "impl": T2[kk], "expected": val})
         if not inplace:
             impo, e = impl_form(N, c2)
@@ -1232,7 +1534,7 @@ def run_wide(case, drv):
         c2 = fresh()
         r = call_impl(lambda: c2.marginalize([vn[u] for u in X], inplace=inplace))
         st, mr = drv.call_e("c05_marginalize", [args, X])
-        if r[0] != st or (st == "err" and r[1] != mr):
+        if not same_outcome(r, st, mr):
             return bad("impl!=model:marginalize-outcome", {"X": X, "impl": r[0], "model": [st, mr if st == "err" else None]})
         if st == "err":
             continue
@@ -1255,7 +1557,7 @@ def run_alias(case, drv):
     k = case["k"]
     N = Names(var_names(case, k + 1))
     vn = N.varnames
-    rows = [[unfr(x) for x in r] for r in case["rows"]]
+    rows = case_rows(case, case["rows"])
     pc = case["pc"]
     snd = sn_dict(case, k)
     ev = list(range(1, k + 1))
@@ -1267,11 +1569,21 @@ def run_alias(case, drv):
     m, _ = drv.call("c05_ctor", [args])
     mod0 = model_form(m)
     base = np.array([[float(x) for x in r] for r in rows], dtype=np.float64)
+    torch_be = is_torch()
+    if torch_be:
+        import torch
+        from pgmpy import config
+        tags.append("caller-side containers: torch tensors of the configured dtype")
+
+    def container(a2):
+        """the caller's array: a C-contiguous float64 ndarray, or under torch a tensor of the configured dtype"""
+        a = np.array(a2, dtype=np.float64, order="C")
+        if torch_be:
+            return torch.tensor(a, dtype=config.get_dtype())
+        return a
 
     def new_arr():
-        a = np.array(base, dtype=np.float64, order="C")
-        assert a.flags["C_CONTIGUOUS"]
-        return a
+        return container(base)
 
     def same_as_model(obj, what, mod=mod0):
         f, e = impl_form(N, obj)
@@ -1287,7 +1599,7 @@ def run_alias(case, drv):
     # (a) the caller's array is mutated afterwards
     arr = new_arr()
     cpd = make_impl_arr(N, 0, ccard, arr, ev, pc, snd)
-    if np.shares_memory(np.asarray(cpd.values), arr):
+    if shares(cpd.values, arr):
         return bad("impl!=spec:cpd-values-alias-constructor-argument", {"via": "2-D float64 C-contiguous ndarray"})
     scramble(arr)
     b = same_as_model(cpd, "ctor-then-caller-mutates-array")
@@ -1312,24 +1624,67 @@ def run_alias(case, drv):
         arr = new_arr()
         c1 = make_impl_arr(N, 0, ccard, arr, ev, pc, snd)
         c2 = make_impl_arr(N, 0, ccard, arr, ev, pc, snd)
-        if np.shares_memory(np.asarray(c1.values), np.asarray(c2.values)):
+        if shares(c1.values, c2.values):
             return bad("impl!=spec:sibling-cpds-share-values", {"op": label})
         try:
             op(c1)
         except (ValueError, KeyError, IndexError, TypeError):
             pass
-        if not np.array_equal(arr, base):
+        if not np.array_equal(to_np(arr), base):
             return bad("impl!=spec:in-place-op-writes-into-caller-array", {"op": label})
         b = same_as_model(c2, "sibling-after-" + label)
         if b:
             return b
     tags.append("inplace-ops=%d" % len(ops))
+    # (b') argument purity: python containers handed to the API are left alone, and can be edited / reused afterwards
+    import copy as _copy
+    ev_py, ec_py = [vn[u] for u in ev], list(pc)
+    sn_py = {vn[u]: list(l) for u, l in snd.items()} if snd else {}
+    vals_py = [[float(x) for x in r] for r in rows]
+    snap = _copy.deepcopy((ev_py, ec_py, sn_py, vals_py))
+    pa1 = TabularCPD(vn[0], ccard, vals_py, evidence=ev_py, evidence_card=ec_py, state_names=sn_py)
+    pa2 = TabularCPD(vn[0], ccard, vals_py, evidence=ev_py, evidence_card=np.array(ec_py, dtype=int), state_names=sn_py)
+    calls = []
+    if k >= 1:
+        no = list(reversed(ev_py))
+        xs = [ev_py[0]]
+        vl = [(ev_py[-1], esn[ev[-1]][0])]
+        calls = [("reorder_parents", lambda c: c.reorder_parents(no, inplace=True), no, list(no)),
+                 ("marginalize", lambda c: c.marginalize(xs, inplace=True), xs, list(xs)),
+                 ("reduce", lambda c: c.reduce(vl, inplace=True, show_warnings=False), vl, list(vl)),
+                 ("reduce(out of place)", lambda c: c.reduce(vl, inplace=False, show_warnings=False), vl, list(vl))]
+    for label, fcall, argobj, argsnap in calls:
+        c_ = TabularCPD(vn[0], ccard, vals_py, evidence=ev_py, evidence_card=ec_py, state_names=sn_py)
+        try:
+            fcall(c_)
+        except (ValueError, KeyError, IndexError, TypeError):
+            pass
+        if argobj != argsnap or (ev_py, ec_py, sn_py, vals_py) != snap:
+            return bad("impl!=spec:call-mutates-its-arguments", {"call": label})
+    if (ev_py, ec_py, sn_py, vals_py) != snap:
+        return bad("impl!=spec:constructor-mutates-its-arguments", {})
+    ev_py.append("zz-added")
+    ev_py.reverse()
+    ec_py[:] = [c + 5 for c in ec_py]
+    for key in list(sn_py):
+        sn_py[key] = ["replaced"]          # top-level replacement (inner lists are not edited in place: see RULE)
+    sn_py["extra"] = [1, 2, 3]
+    for r_ in vals_py:
+        for j in range(len(r_)):
+            r_[j] = -1.0
+    for c_, what in ((pa1, "cpd-after-caller-edits-argument-containers"), (pa2, "cpd(evidence_card ndarray)-after-caller-edits")):
+        b = same_as_model(c_, what)
+        if b:
+            return b
+    tags.append("argument-purity")
     # (c) one scratch buffer re-filled for several CPDs
     tables = [rows, [[x / 2 for x in r] for r in rows], [[x + Fraction(1, 4) for x in r] for r in reversed(rows)]]
-    buf = np.empty(base.shape, dtype=np.float64)
+    fl = q32 if torch_be else (lambda x: Fraction(float(x)))
+    tables = [[[fl(x) for x in r] for r in t] for t in tables]
+    buf = container(np.zeros(base.shape))
     built = []
     for t in tables:
-        buf[...] = np.array([[float(x) for x in r] for r in t], dtype=np.float64)
+        buf[...] = container([[float(x) for x in r] for r in t])
         built.append(make_impl_arr(N, 0, ccard, buf, ev, pc, snd))
     for t, c in zip(tables, built):
         mt, _ = drv.call("c05_ctor", [ctor_args(N, 0, ccard, t, ev, pc, snd)])
@@ -1339,7 +1694,7 @@ def run_alias(case, drv):
     # (d) a CPD built from another CPD's get_values() / a factor built from another object's values
     src = make_impl(N, 0, ccard, rows, ev, pc, snd)
     nxt = make_impl_arr(N, 0, ccard, src.get_values(), ev, pc, snd)
-    if np.shares_memory(np.asarray(nxt.values), np.asarray(src.values)):
+    if shares(nxt.values, src.values):
         return bad("impl!=spec:cpd-values-alias-constructor-argument", {"via": "other.get_values()"})
     nxt.values += 1.0
     nxt.normalize(inplace=True)
@@ -1353,35 +1708,425 @@ def run_alias(case, drv):
         return b
     src = make_impl(N, 0, ccard, rows, ev, pc, snd)
     kw = {"state_names": {vn[u]: list(l) for u, l in snd.items()}} if snd else {}
-    for via, vals in (("other.values", src.values), ("other.values.reshape(-1)", src.values.reshape(-1)),
-                      ("1-D float64 ndarray", None)):
-        flat = np.array(base.reshape(-1), dtype=np.float64)
-        given = flat if vals is None else vals
-        f = DiscreteFactor([vn[v] for v in [0] + ev], [ccard] + pc, given, **kw)
-        if np.shares_memory(np.asarray(f.values), np.asarray(given)):
+    fm = {"vars": mod0["vars"], "cards": mod0["cards"], "flat": mod0["flat"], "sn": mod0["sn"]}
+    scope_py, cards_py = [vn[v] for v in [0] + ev], [ccard] + pc
+    for via, pick in (("other.values", lambda c: c.values), ("other.values.reshape(-1)", lambda c: c.values.reshape(-1)),
+                      ("other.get_values()", lambda c: c.get_values()), ("1-D array", None)):
+        src = make_impl(N, 0, ccard, rows, ev, pc, snd)
+        given = container(base.reshape(-1)) if pick is None else pick(src)
+        f = DiscreteFactor(scope_py, cards_py, given, **kw)
+        if shares(f.values, given):
             return bad("impl!=spec:factor-values-alias-constructor-argument", {"via": via})
-        if vals is None:
-            flat[:] = -1.0
+        if pick is None:
+            given[:] = -1.0
         else:
-            src.values += 1.0
+            src.values *= 3.0
         ff, e = impl_form(N, f)
         if e:
             return bad("impl-inconsistent:factor-ctor", e)
-        fm = {"vars": mod0["vars"], "cards": mod0["cards"], "flat": mod0["flat"], "sn": mod0["sn"]}
         b = cmp_forms("factor-ctor-then-argument-mutated(%s)" % via, ff, fm)
         if b:
             return b
-        if vals is not None:
-            src.values -= 1.0
-        f.values *= 0.0
-        f.normalize(inplace=True) if False else None
-        b = same_as_model(src, "source-after-mutating-factor-built-from-" + via)
-        if b:
-            return b
+        if pick is not None:
+            src = make_impl(N, 0, ccard, rows, ev, pc, snd)
+            f = DiscreteFactor(scope_py, cards_py, pick(src), **kw)
+            f.values *= 0.0
+            b = same_as_model(src, "source-after-mutating-factor-built-from-" + via)
+            if b:
+                return b
     return ok(nontrivial=True, key=common.canon_key(["alias", ccard, pc, case["rows"], case["sn"], case["vstyle"]]), tags=tags)
 
 
+
+# ------------------------------------------------------------------ sessions on ONE CPD object
+def run_session(case, drv):
+    """a sequence of in-place operations on the same CPD object, read-only calls in between; after every step the
+    object = the model's object (a memoised table / lookup that survives an edit shows up here)"""
+    k = case["k"]
+    N = Names(var_names(case, k + 2))
+    vn = N.varnames
+    rows = case_rows(case, case["rows"])
+    pc = list(case["pc"])
+    snd = sn_dict(case, k)
+    ev = list(range(1, k + 1))
+    args = ctor_args(N, 0, case["ccard"], rows, ev, pc, snd)
+    rng = random.Random(case["qseed"])
+    esn = eff_sn(case, k)
+    tags = ["session parents=%d" % k]
+    cur = list(ev)
+    ops, mops = [], []
+    for _ in range(6):
+        kind = rng.choice(["reorder", "marginalize", "reduce", "normalize", "copy", "reduce", "marginalize", "rejected"])
+        if kind == "reorder" and cur:
+            o = list(cur)
+            rng.shuffle(o)
+            ops.append(("reorder", o))
+            mops.append([0, o])
+            cur = o
+        elif kind == "marginalize":
+            X = [u for u in cur if rng.random() < 0.4]
+            rng.shuffle(X)
+            ops.append(("marginalize", X))
+            mops.append([1, X])
+            cur = [u for u in cur if u not in X]
+        elif kind == "reduce":
+            X = [u for u in cur if rng.random() < 0.4]
+            rng.shuffle(X)
+            vals = [(u, esn[u][rng.randrange(len(esn[u]))]) for u in X]
+            ops.append(("reduce", vals))
+            mops.append([2, [[u, N.st(s_)] for u, s_ in vals]])
+            cur = [u for u in cur if u not in X]
+        elif kind == "normalize":
+            ops.append(("normalize", None))
+            mops.append([3])
+        elif kind == "copy":
+            ops.append(("copy", None))
+            mops.append([4])
+        else:   # a call the code rejects before touching the object: a LATER argument is invalid
+            how = rng.choice(["marg-unknown", "reduce-unknown", "reduce-child", "reorder-missing"])
+            if how == "marg-unknown":
+                X = cur[:1] + [k + 1]
+                ops.append(("marginalize", X))
+                mops.append([1, X])
+            elif how == "reduce-unknown":
+                vals = [(u, esn[u][0]) for u in cur[:1]] + [(k + 1, 0)]
+                ops.append(("reduce", vals))
+                mops.append([2, [[u, N.st(s_)] for u, s_ in vals]])
+            elif how == "reduce-child":
+                vals = [(u, esn[u][0]) for u in cur[:1]] + [(0, esn[0][0])]
+                ops.append(("reduce", vals))
+                mops.append([2, [[u, N.st(s_)] for u, s_ in vals]])
+            else:
+                o = cur[1:] + [k + 1] if cur else [k + 1]
+                ops.append(("reorder", o))
+                mops.append([0, o])
+    replies = drv.call("c05_session", [args, mops])
+    obj = make_impl(N, 0, case["ccard"], rows, ev, pc, snd)
+    last = None
+    for step, ((kind, a), rep) in enumerate(zip(ops, replies)):
+        if kind == "reorder":
+            r = call_impl(lambda: obj.reorder_parents([vn[u] for u in a], inplace=True))
+        elif kind == "marginalize":
+            r = call_impl(lambda: obj.marginalize([vn[u] for u in a], inplace=True))
+        elif kind == "reduce":
+            r = call_impl(lambda: obj.reduce([(vn[u], s_) for u, s_ in a], inplace=True, show_warnings=bool(step % 2)))
+        elif kind == "normalize":
+            r = call_impl(lambda: obj.normalize(inplace=True))
+        else:
+            r = call_impl(lambda: obj.copy())
+            if r[0] == "ok":
+                obj = r[1]
+        info = {"step": step, "ops": [[k_, str(a_)] for k_, a_ in ops[: step + 1]]}
+        if rep[0] == 1:
+            if r[0] != "err" or not same_outcome(r, "err", rep[1]):
+                return bad("impl!=model:session-outcome", dict(info, impl=list(r[:1]) + ([r[1]] if r[0] == "err" else []), model=rep))
+            tags.append("rejected-call")
+            if rep[1] in (2, 3):
+                break      # KeyError / IndexError arise half-way: the object is not specified afterwards
+            continue       # rejected before any mutation: the object must still be the previous state (checked next step)
+        if r[0] != "ok":
+            return bad("impl!=model:session-outcome", dict(info, impl=["err", r[1]], model="ok"))
+        mod = model_form(rep[1], opt=(rep[0] == 2))
+        f, e = impl_form(N, obj)
+        if e:
+            return bad("impl-inconsistent:session", dict(info, reason=e))
+        b = cmp_forms("session(%s)" % kind, f, mod, obj.get_values())
+        if b:
+            b["detail"].update(info)
+            return b
+        if rep[0] == 2:
+            tags.append("non-finite-end")
+            break
+        if bool(obj.is_valid_cpd()) != bool(rep[2]):
+            return bad("impl!=model:session-is_valid_cpd", dict(info, impl=bool(obj.is_valid_cpd()), model=bool(rep[2])))
+        if [N.var(x) for x in obj.get_evidence()] != list(reversed(mod["vars"][1:])):
+            return bad("impl!=model:session-get_evidence", info)
+        fac, e = impl_form(N, obj.to_factor())
+        if e or cmp_forms("session-to_factor", fac, {kk: mod[kk] for kk in ("vars", "cards", "flat", "sn")}):
+            return bad("impl!=model:session-to_factor", dict(info, reason=e))
+        tags.append("op=" + kind)
+        last = (mod, kind)
+    else:
+        # the object once more at the end (a rejected last call must have left it alone)
+        if last is not None:
+            f, e = impl_form(N, obj)
+            if e or cmp_forms("session-end", f, last[0], obj.get_values()):
+                return bad("impl!=model:session-end-state", {"reason": e, "ops": [[k_, str(a_)] for k_, a_ in ops]})
+    return ok(nontrivial=k >= 1, key=common.canon_key(["session", case["ccard"], pc, case["rows"], case["sn"], case["qseed"]]),
+              tags=sorted(set(tags)))
+
+
+# ------------------------------------------------------------------ sessions on ONE BayesianNetwork object
+def spec_snd(spec):
+    return spec["snd"]
+
+
+def bn_compare(model, N, nodes, edges, specs, queries, drv, what):
+    """everything observable of the network against the model built afresh from the CURRENT state"""
+    vn = N.varnames
+    margs = [ctor_args(N, sp["v"], sp["card"], sp["rows"], sp["pa"], sp["pc"], sp["snd"]) for sp in specs]
+    qm = [[[v, N.st(s_)] for v, s_ in q] for q in queries]
+    code, gsp, cardl = drv.call("c05_bn", [nodes, [list(e) for e in edges], margs, qm])
+    try:
+        res = model.check_model()
+        icode, msg = (0 if res is True else -1), ""
+    except ValueError as e:
+        msg = str(e.args[0]) if e.args else ""
+        icode = classify(msg)
+        if icode is None:
+            icode = -2
+    if (icode == 0) != (code == 0) or (icode > 0 and icode != code) or icode == -1:
+        return bad("impl!=model:check_model(session)", {"after": what, "impl": icode, "impl_msg": msg[:120], "model": CM_NAMES[code]}), code
+    if [N.var(c.variable) for c in model.get_cpds()] != [sp["v"] for sp in specs]:
+        return bad("impl!=model:cpd-list(session)", {"after": what, "impl": [N.var(c.variable) for c in model.get_cpds()],
+                                                      "model": [sp["v"] for sp in specs]}), code
+    if [N.var(x) for x in model.nodes()] != list(nodes) or sorted((N.var(a), N.var(b_)) for a, b_ in model.edges()) != sorted(map(tuple, edges)):
+        return bad("impl!=model:graph(session)", {"after": what}), code
+    ic = {N.var(k_): int(v_) for k_, v_ in model.get_cardinality().items()}
+    if ic != {a: b_ for a, b_ in cardl}:
+        return bad("impl!=model:get_cardinality(session)", {"after": what, "impl": sorted(ic.items()), "model": cardl}), code
+    for sp in specs:
+        if int(model.get_cardinality(vn[sp["v"]])) != sp["card"]:
+            return bad("impl!=model:get_cardinality(node)(session)", {"after": what, "node": sp["v"]}), code
+        c = model.get_cpds(vn[sp["v"]])
+        f, e = impl_form(N, c)
+        if e:
+            return bad("impl-inconsistent:cpd(session)", {"after": what, "reason": e}), code
+        m, _ = drv.call("c05_ctor", [ctor_args(N, sp["v"], sp["card"], sp["rows"], sp["pa"], sp["pc"], sp["snd"])])
+        b = cmp_forms("get_cpds(node) after %s" % what, f, model_form(m), c.get_values())
+        if b:
+            return b, code
+    for q, mres in zip(queries, gsp):
+        try:
+            qd = {vn[v]: s_ for v, s_ in q}
+            qsnap = dict(qd)
+            pr = float(model.get_state_probability(qd))
+            if qd != qsnap:
+                return bad("impl!=spec:get_state_probability-mutates-argument", {"after": what}), code
+            ir = (0, pr)
+        except ValueError:
+            ir = (1, None)
+        except KeyError:
+            ir = (2, 2)
+        if mres[0] == 0:
+            if ir[0] != 0 or not rel_ok(ir[1], common.frac(mres[1])):
+                return bad("impl!=model:get_state_probability(session)", {"after": what, "query": str(q), "impl": ir, "model": float(common.frac(mres[1]))}), code
+        elif mres[0] == 1 or (mres[0] == 2 and mres[1] == 1):
+            if ir[0] != 1:
+                return bad("impl!=model:get_state_probability-error(session)", {"after": what, "query": str(q), "impl": ir, "model": mres}), code
+        elif ir[0] != 2:
+            return bad("impl!=model:get_state_probability-error(session)", {"after": what, "query": str(q), "impl": ir, "model": mres}), code
+    return None, code
+
+
+def run_bnsession(case, drv):
+    from pgmpy.models import BayesianNetwork
+    n = case["n"]
+    N = Names(var_names(case, n + 2))
+    vn = N.varnames
+    cards = list(case["cards"])
+    sn = case["sn"]
+    rng = random.Random(case["qseed"])
+    esn = {v: (list(sn[v]) if sn is not None else list(range(cards[v]))) for v in range(n)}
+    new = n                     # a node added during the session
+    cards.append(2)
+    esn[new] = ["n0", "n1"] if sn is not None else [0, 1]
+    fl = q32 if case.get("backend") == "torch" else (lambda x: x)
+
+    def mkspec(v, pa, mode="norm"):
+        pa = list(pa)
+        pcs = [cards[u] for u in pa]
+        rows = [[fl(x) for x in r] for r in rand_table(rng, cards[v], math.prod(pcs), mode)]
+        snd = None if sn is None else {u: list(esn[u]) for u in [v] + pa}
+        return {"v": v, "pa": pa, "pc": pcs, "card": cards[v], "rows": rows, "snd": snd}
+
+    def impl_of(sp):
+        return make_impl(N, sp["v"], sp["card"], sp["rows"], sp["pa"], sp["pc"], sp["snd"])
+
+    nodes = list(case["nodes"])
+    edges = [tuple(e) for e in case["edges"]]
+    model = BayesianNetwork()
+    for v in nodes:
+        model.add_node(vn[v])
+    model.add_edges_from([(vn[u], vn[v]) for u, v in edges])
+    order = list(range(n))
+    rng.shuffle(order)
+    specs = []
+    for v in order:
+        pa = [u for (u, w) in edges if w == v]
+        rng.shuffle(pa)
+        specs.append(mkspec(v, pa))
+    model.add_cpds(*[impl_of(sp) for sp in specs])
+
+    def queries():
+        vs = [v for v in nodes]
+        qs = [[], [(v, esn[v][rng.randrange(cards[v])]) for v in vs]]
+        if vs:
+            sub = rng.sample(vs, rng.randint(1, len(vs)))
+            qs.append([(v, esn[v][rng.randrange(cards[v])]) for v in sub])
+        return qs
+
+    tags = ["bnsession nodes=%d" % n]
+    b, code = bn_compare(model, N, nodes, edges, specs, queries(), drv, "build")
+    if b:
+        return b
+    if code != 0:
+        return bad("harness-inconsistent:bnsession-start", {"model": CM_NAMES[code]})
+
+    def pos(v):
+        return [i for i, sp in enumerate(specs) if sp["v"] == v][0]
+
+    def parents_of(v):
+        return [u for (u, w) in edges if w == v]
+
+    def reach(a, b_):   # is there a directed path a ->* b_
+        seen, st = set(), [a]
+        while st:
+            x = st.pop()
+            if x == b_:
+                return True
+            if x in seen:
+                continue
+            seen.add(x)
+            st.extend(w for (u, w) in edges if u == x)
+        return False
+
+    for step in range(5):
+        edit = rng.choice(["replace", "replace-bad-sum", "remove-readd", "add-edge", "remove-edge", "add-node",
+                           "multi-add-later-invalid", "remove-node", "reorder-in-model"])
+        present = [sp["v"] for sp in specs]
+        if edit in ("replace", "replace-bad-sum") and present:
+            v = rng.choice(present)
+            sp = mkspec(v, specs[pos(v)]["pa"], "norm" if edit == "replace" else "free")
+            model.add_cpds(impl_of(sp))
+            specs[pos(v)] = sp
+        elif edit == "remove-readd" and present:
+            v = rng.choice(present)
+            old = specs.pop(pos(v))
+            if isinstance(vn[v], (str, int)) and rng.random() < 0.5:
+                model.remove_cpds(vn[v])
+            else:
+                model.remove_cpds(model.get_cpds(vn[v]))
+            b, code = bn_compare(model, N, nodes, edges, specs, queries(), drv, "remove_cpds")
+            if b:
+                return b
+            sp = mkspec(v, old["pa"])
+            model.add_cpds(impl_of(sp))
+            specs.append(sp)
+        elif edit == "add-edge":
+            cand = [(u, v) for u in nodes for v in nodes if u != v and (u, v) not in edges and (v, u) not in edges
+                    and not reach(v, u) and len(parents_of(v)) < 3 and v in present]
+            if not cand:
+                continue
+            u, v = rng.choice(cand)
+            model.add_edge(vn[u], vn[v])
+            edges.append((u, v))
+            b, code = bn_compare(model, N, nodes, edges, specs, queries(), drv, "add_edge")
+            if b:
+                return b
+            pa = parents_of(v)
+            rng.shuffle(pa)
+            sp = mkspec(v, pa)
+            model.add_cpds(impl_of(sp))
+            specs[pos(v)] = sp
+        elif edit == "remove-edge":
+            cand = [e for e in edges if e[1] in present]
+            if not cand:
+                continue
+            u, v = rng.choice(cand)
+            if rng.random() < 0.5:
+                model.remove_edge(vn[u], vn[v])
+            else:
+                model.remove_edges_from([(vn[u], vn[v])])
+            edges.remove((u, v))
+            b, code = bn_compare(model, N, nodes, edges, specs, queries(), drv, "remove_edge")
+            if b:
+                return b
+            pa = [w for w in specs[pos(v)]["pa"] if w != u]
+            sp = mkspec(v, pa)
+            model.add_cpds(impl_of(sp))
+            specs[pos(v)] = sp
+        elif edit == "add-node" and new not in nodes:
+            model.add_node(vn[new])
+            nodes.append(new)
+            b, code = bn_compare(model, N, nodes, edges, specs, queries(), drv, "add_node")
+            if b:
+                return b
+            sp = mkspec(new, [])
+            model.add_cpds(impl_of(sp))
+            specs.append(sp)
+        elif edit == "multi-add-later-invalid" and present:
+            v = rng.choice(present)
+            sp = mkspec(v, specs[pos(v)]["pa"])
+            ghost = n + 1   # a variable that is not a node of the model
+            badc = make_impl(N, ghost, 2, [[Fraction(1, 2)], [Fraction(1, 2)]], [], [], None)
+            r = call_impl(lambda: model.add_cpds(impl_of(sp), badc))
+            if r != ("err", 1):
+                return bad("impl!=spec:add_cpds-accepts-cpd-outside-model", {"outcome": list(r[:1])})
+            specs[pos(v)] = sp      # the first argument was added before the second was rejected
+        elif edit == "remove-node" and len(nodes) >= 2:
+            v = rng.choice(nodes)
+            children = [w for (u, w) in edges if u == v]
+            for w in children:
+                if w in present and v in specs[pos(w)]["pa"]:
+                    spw = specs[pos(w)]
+                    st, mr = drv.call_e("c05_marginalize", [ctor_args(N, spw["v"], spw["card"], spw["rows"], spw["pa"], spw["pc"], spw["snd"]), [v]])
+                    if st != "ok":
+                        return bad("harness-inconsistent:remove_node-marginalize", {"model": [st, mr]})
+                    mf = model_form(mr, opt=True)
+                    if any(x is None for x in mf["flat"]):
+                        return ok(nontrivial=False, key=None, tags=tags + ["remove-node-nonfinite-skip"])
+                    npa = [u for u in spw["pa"] if u != v]
+                    nsnd = None if spw["snd"] is None else {u: l for u, l in spw["snd"].items() if u != v}
+                    if spw["snd"] is None:
+                        nsnd = {u: list(range(cards[u])) for u in [w] + npa}   # default names are stored explicitly after construction
+                    specs[pos(w)] = {"v": w, "pa": npa, "pc": [cards[u] for u in npa], "card": spw["card"], "rows": mf["rows"], "snd": nsnd}
+            if v in present:
+                specs.pop(pos(v))
+            if rng.random() < 0.5:
+                model.remove_node(vn[v])
+            else:
+                model.remove_nodes_from([vn[v]])
+            nodes.remove(v)
+            edges = [e for e in edges if v not in e]
+        elif edit == "reorder-in-model" and present:
+            v = rng.choice(present)
+            sp = specs[pos(v)]
+            if len(sp["pa"]) >= 2:
+                o = list(sp["pa"])
+                rng.shuffle(o)
+                st, mr = drv.call_e("c05_reorder", [ctor_args(N, sp["v"], sp["card"], sp["rows"], sp["pa"], sp["pc"], sp["snd"]), o, True])
+                model.get_cpds(vn[v]).reorder_parents([vn[u] for u in o], inplace=True)
+                mf = model_form(mr[0])
+                snd2 = sp["snd"] if sp["snd"] is not None else {u: list(range(cards[u])) for u in [v] + o}
+                specs[pos(v)] = {"v": v, "pa": o, "pc": [cards[u] for u in o], "card": sp["card"], "rows": mf["rows"], "snd": snd2}
+        else:
+            continue
+        tags.append("edit=" + edit)
+        b, code = bn_compare(model, N, nodes, edges, specs, queries(), drv, edit)
+        if b:
+            return b
+        tags.append("verdict-after-edit=" + CM_NAMES[code])
+    return ok(nontrivial=len(case["edges"]) > 0,
+              key=common.canon_key(["bnsession", case["nodes"], case["edges"], case["sn"], case["qseed"]]), tags=sorted(set(tags)))
+
+
 def run_case(case, drv):
+    from pgmpy import config
+    backend = case.get("backend", "numpy")
+    if backend == "torch":
+        config.set_backend("torch")
+    try:
+        out = run_case_(case, drv)
+        if isinstance(out, dict):
+            out.setdefault("tags", []).append("backend=" + backend)
+        return out
+    finally:
+        if backend == "torch":
+            config.set_backend("numpy")
+
+
+def run_case_(case, drv):
     kind = case["kind"]
     if kind == "cpd":
         return run_cpd(case, drv)
@@ -1395,4 +2140,8 @@ def run_case(case, drv):
         return run_wide(case, drv)
     if kind == "alias":
         return run_alias(case, drv)
+    if kind == "session":
+        return run_session(case, drv)
+    if kind == "bnsession":
+        return run_bnsession(case, drv)
     return bad("harness", "unknown kind %r" % kind)
